@@ -70,9 +70,130 @@ static void emit_api(void)
     free(txt);
 }
 
+/* every statement of cbuf.c that ADDS or SUBTRACTS (binary + -, += -=, ++ --): `(function, statement
+ * with all white space removed)`, in source order, duplicates within a function removed; the source
+ * line of each goes into a comment.  Cbuf/IntExprs.lean classifies each of them (which bound keeps it
+ * inside a C int) and Props/C13.lean proves that the classification covers this list
+ * (`int_exprs_covered`) -- an expression ADDED to cbuf.c breaks the build of the theorems instead of
+ * silently escaping `index_arithmetic_no_overflow`.  The list is keyed by the statement text alone
+ * (sorted, distinct): moving code into another function is not a new expression.  Comments and
+ * preprocessor lines are blanked;
+ * a unary minus (`-1`, `return(-1)`) is not arithmetic. */
+static char *slurp_c(const char *rel, long *pn)
+{
+    const char *repo = getenv("VERIF_REPO");
+    char path[4096], *txt;
+    long n, i;
+    FILE *f;
+    snprintf(path, sizeof path, "%s/%s", repo && *repo ? repo : "/repo", rel);
+    f = fopen(path, "r");
+    if (!f) { fprintf(stderr, "cannot read %s\n", path); exit(1); }
+    fseek(f, 0, SEEK_END); n = ftell(f); rewind(f);
+    txt = malloc(n + 2);
+    n = (long) fread(txt, 1, n, f); txt[n] = txt[n + 1] = 0;
+    fclose(f);
+    for (i = 0; i < n; i++) {
+        if (txt[i] == '/' && txt[i + 1] == '*') {
+            while (i < n && !(txt[i] == '*' && txt[i + 1] == '/')) { if (txt[i] != '\n') txt[i] = ' '; i++; }
+            if (i < n) { txt[i] = ' '; txt[i + 1] = ' '; }
+        } else if (txt[i] == '\'' ) {            /* character literal: keep, skip */
+            i++; if (txt[i] == '\\') i++; i++;
+        } else if (txt[i] == '"') {
+            for (i++; i < n && txt[i] != '"'; i++) if (txt[i] == '\\') i++;
+        } else if (txt[i] == '#' ) {
+            long j = i - 1;
+            while (j >= 0 && (txt[j] == ' ' || txt[j] == '\t')) j--;
+            if (j < 0 || txt[j] == '\n') {       /* preprocessor line (with continuations) */
+                while (i < n && txt[i] != '\n') { if (txt[i] == '\\' && txt[i + 1] == '\n') { txt[i] = ' '; i++; } else txt[i++] = ' '; }
+            }
+        }
+    }
+    *pn = n;
+    return txt;
+}
+static int is_id(int c) { return isalnum(c) || c == '_'; }
+/* does the statement text s[0..n) contain additive arithmetic? */
+static int has_arith(const char *s, long n)
+{
+    long i, j;
+    for (i = 0; i < n; i++) {
+        if (s[i] == '\'') { i++; if (s[i] == '\\') i++; i++; continue; }
+        if (s[i] == '-' && s[i + 1] == '>') { i++; continue; }
+        if (s[i] != '+' && s[i] != '-') continue;
+        if (s[i + 1] == s[i] || s[i + 1] == '=') return 1;                /* ++ -- += -= */
+        for (j = i - 1; j >= 0 && isspace((unsigned char) s[j]); j--) ;
+        if (j >= 0 && (is_id((unsigned char) s[j]) || s[j] == ')' || s[j] == ']')) {
+            /* binary, unless the word before is `return` */
+            long e = j + 1;
+            while (j >= 0 && is_id((unsigned char) s[j])) j--;
+            if (!(e - j - 1 == 6 && strncmp(s + j + 1, "return", 6) == 0)) return 1;
+        }
+    }
+    return 0;
+}
+static int cmp_str(const void *a, const void *b) { return strcmp(*(char *const *) a, *(char *const *) b); }
+static void emit_int_exprs(void)
+{
+    long n, i, start = 0, line = 1, sline = 1;
+    char *txt = slurp_c("src/pdsh/cbuf.c", &n);
+    static char stmts[600][512], cmt[1 << 16];
+    char fn[128] = "", *order[600];
+    int depth = 0, paren = 0, ns = 0, k = 0, q;
+    size_t cl = 0;
+    cmt[0] = 0;
+    for (i = 0; i < n; i++) {
+        int c = (unsigned char) txt[i];
+        if (c == '\n') line++;
+        if (c == '\'') { i++; if (txt[i] == '\\') i++; i++; continue; }
+        if (depth == 0 && strncmp(txt + i, "cbuf_", 5) == 0 && (i == 0 || !is_id((unsigned char) txt[i - 1]))) {
+            long j = i, e;
+            while (is_id((unsigned char) txt[j])) j++;
+            e = j;
+            while (isspace((unsigned char) txt[j])) j++;
+            if (txt[j] == '(' && e - i < (long) sizeof fn) { memcpy(fn, txt + i, e - i); fn[e - i] = 0; }
+        }
+        if (c == '(') paren++;
+        if (c == ')') paren--;
+        if ((c == '{' || c == '}' || c == ';') && paren == 0) {
+            if (depth >= 1 && ns < 600 && has_arith(txt + start, i - start)) {
+                char *s = stmts[ns];
+                long j, m = 0;
+                for (j = start; j < i && m < 511; j++)
+                    if (!isspace((unsigned char) txt[j])) s[m++] = txt[j];
+                s[m] = 0;
+                order[ns++] = s;
+                cl += snprintf(cmt + cl, sizeof cmt - cl, "--   %s:%ld  %s\n", fn, sline, s);
+                if (cl >= sizeof cmt) cl = sizeof cmt - 1;
+            }
+            if (c == '{') depth++;
+            if (c == '}') depth--;
+            start = i + 1;
+            sline = line;
+        } else if (isspace(c) && start == i) {
+            start = i + 1;              /* a statement starts at its first non-blank character */
+            sline = line;
+        }
+    }
+    /* the key is the statement alone, sorted and distinct: moving code between functions or
+     * re-ordering functions changes nothing; a statement never seen before does */
+    qsort(order, ns, sizeof order[0], cmp_str);
+    printf("def CBUF_INT_EXPRS : List String := [");
+    for (q = 0; q < ns; q++) {
+        const char *s = order[q];
+        if (q > 0 && strcmp(order[q - 1], s) == 0) continue;
+        printf("%s\n  \"", k++ ? "," : "");
+        for (; *s; s++) { if (*s == '"' || *s == '\\') putchar('\\'); putchar(*s); }
+        printf("\"");
+    }
+    printf("]\n-- where they occur (function:line of the cbuf.c under test):\n%s", cmt);
+    if (k == 0) { fprintf(stderr, "no arithmetic found in cbuf.c\n"); exit(1); }
+    free(txt);
+}
+
 int main(void)
 {
     emit_api();
+    emit_int_exprs();
     LEAN_NAT("CBUF_CHUNK", CBUF_CHUNK);
     LEAN_NAT("CBUF_NO_DROP", CBUF_NO_DROP);
     LEAN_NAT("CBUF_WRAP_ONCE", CBUF_WRAP_ONCE);
